@@ -404,11 +404,23 @@ class OrderingList(List[_T]):
             for i in range(start, stop, step):
                 self.__setitem__(i, entities[i])
         else:
-            self._order_entity(int(index), entity, True)  # type: ignore[arg-type] # noqa: E501
+            position = int(index)
+            if position < 0:
+                # the ordering function takes the list index, not -1
+                position += len(self)
+            self._order_entity(position, entity, True)  # type: ignore[arg-type] # noqa: E501
             super().__setitem__(index, entity)  # type: ignore[assignment]
 
     def __delitem__(self, index: Union[SupportsIndex, slice]) -> None:
         super().__delitem__(index)
+        self._reorder()
+
+    def reverse(self) -> None:
+        super().reverse()
+        self._reorder()
+
+    def sort(self, **kw: Any) -> None:
+        super().sort(**kw)
         self._reorder()
 
     def __reduce__(self) -> Any:
